@@ -1,11 +1,11 @@
 /-
   G1. netcode byte-level readers/writers without crypto: generated `renetcode/src/serialize.rs` (whole file) and
-  `packet.rs` `read_sequence` / `write_sequence` / `get_additional_data` over the `io::Cursor` models of RustSem agree
+  `packet.rs` `read_sequence` / `get_additional_data` (`write_sequence`: group NcSequence) over the `io::Cursor` models of RustSem agree
   with `Netcode/Util.lean` (`readU64`, `readN`, `Wr`, …) and `Netcode/Wire.lean`.
   Headline statements in `Props/SrcTieNcSerialize.lean`.
 -/
+import RenetVerif.Generated.Src.NcSerialize
 import RenetVerif.Lemmas.SrcEquiv.Prims
-import RenetVerif.Lemmas.SrcEquiv.Prefix
 namespace RenetVerif.SrcEquiv
 open RenetVerif RenetVerif.RustSem
 
@@ -222,23 +222,6 @@ theorem to_le_bytes64 (x : Nat) : RustSem.to_le_bytes 64 x = toNats (Netcode.leB
       simp only [RustSem.leBytes, Netcode.leBytes, toNats, List.map_cons] at ih ⊢
       rw [ih]; simp [UInt8.toNat_ofNat']
   exact this 8 x
-
-open Src.renetcode.packet in
-theorem write_sequence_eq {w : Wr} {tail : List Nat} (h : WrOk w tail) (seq : Nat) :
-    write_sequence (wcur w tail) seq =
-      .ok (wcur (Packet.writeSequence w seq).1 (tail.drop (Packet.writeSequence w seq).2), (Packet.writeSequence w seq).2) := by
-  unfold write_sequence Packet.writeSequence
-  have hb := sbr_bounds seq
-  simp only [sequence_bytes_required_eq, Exec.call_ok, Exec.bind_eq, Exec.bind_val', Exec.pure_eq, to_le_bytes64]
-  have hsl : (RustSem.slice (toNats (Netcode.leBytes seq 8)) 0 (Packet.sequenceBytesRequired seq)
-      "renetcode/src/packet.rs:write_sequence: sequence_scratch[..len]" :
-        Exec IoError (WriteCursor × Nat) (List Nat)) = .val (toNats ((Netcode.leBytes seq 8).take (Packet.sequenceBytesRequired seq))) := by
-    unfold RustSem.slice
-    have hl8 : (toNats (Netcode.leBytes seq 8)).length = 8 := by rw [toNats_length, leBytes_length]
-    rw [if_pos ⟨Nat.zero_le _, by omega⟩]
-    simp [toNats, List.map_take]
-  rw [hsl, Exec.bind_val', (wcur_write h _).1]
-  rfl
 
 theorem version_info_eq : Src.renetcode.NETCODE_VERSION_INFO = toNats C.NETCODE_VERSION_INFO := by decide
 
